@@ -26,6 +26,7 @@ from .errors import InputFileError
 from .nn_graph import Graph
 from .nn_graph import Subgraph
 from .operation import create_activation_function
+from .operation import CustomType
 from .operation import Op
 from .operation import Operation
 from .reader_util import align_tensor_indices_to_nng
@@ -231,6 +232,10 @@ class TFLiteSubgraph:
                 op.activation = create_activation_function(faf)
             if custom_code is not None:
                 op.attrs["custom_code"] = custom_code
+            if op.attrs.get("custom_type") == CustomType.ExistingNpuOp and custom_code != "ethos-u":
+                # only the operator written by Vela is an existing NPU operator, whatever the options of another
+                # custom operator look like
+                del op.attrs["custom_type"]
 
             # finally, report any missing attributes that could not be read during deserialize()
             attribute_read_error = op.attrs["attribute_read_error"]
